@@ -8,8 +8,9 @@
 //! counter wraps silently (harmless without a limit; with limit u32::MAX the limit error is never reported).
 //! The expression is the 3-byte loop `DW_OP_skip -3` (2f fd ff).
 //!
-//! Minimal fix:  `self.iteration = self.iteration.saturating_add(1);`  (or only count when a limit is set and test
-//! `self.iteration >= max` before incrementing).
+//! Fixed in /repo commit 58e76a9 (`self.iteration = self.iteration.saturating_add(1);`): on a fixed tree `nolimit` runs
+//! forever (documented behaviour without a limit) and `maxlimit` likewise (the limit u32::MAX is never exceeded); use
+//! `probe N` there.  On the pinned pre-fix tree both cases panic.
 //!
 //! usage: f_op_eval_1 [nolimit|maxlimit] [probe N]
 //!   default `nolimit`: evaluates until the panic; this needs 2^32 iterations -- about 2-4 minutes in a release build
